@@ -30,7 +30,8 @@ pub const DEF: PropDef = PropDef {
     rule: "Values: every value below 2^19 (quick) / 2^23 (thorough), every length-step boundary +-2 up to 10 bytes (2^7, 2^7+2^14, ...), 2^64-1 \
 and seeded random values of all magnitudes, for both variants: vbyte_write_be/le and the generic vbyte_write::<BE|LE> must produce the reference \
 byte string (complete, ungrouped 7-bit groups per the module documentation) and return its length == byte_len_vbyte == bit_len_vbyte/8; \
-vbyte_read_be/le and vbyte_read::<BE|LE> must return the value and consume exactly the string; the generic entry points must select the variant \
+vbyte_read_be/le and vbyte_read::<BE|LE> must return the value and consume exactly the string (also through a sink / source that \
+transfers one byte per call and interleaves ErrorKind::Interrupted, as the std::io contracts allow); the generic entry points must select the variant \
 named by their endianness parameter. Streams: the bit-stream traits write_vbyte_be/le and read_vbyte_be/le at byte-aligned positions over both \
 stream endiannesses, all writer words and all readers must produce / accept the same bytes. Completeness, exhaustive: every terminated byte \
 string of length <= 3 (2 113 664 per variant) decodes to the reference value, consumes exactly its length, and re-encodes to the same string \
@@ -42,10 +43,78 @@ a length step; distinct = distinct batch hashes (elementary_checks counts values
     from_bytes: None,
 };
 
+/// A conforming `Write` that accepts one byte per call and reports `Interrupted` on every third call.
+struct Drip {
+    out: Vec<u8>,
+    tick: u32,
+}
+impl std::io::Write for Drip {
+    fn write(&mut self, buf: &[u8]) -> std::io::Result<usize> {
+        self.tick += 1;
+        if self.tick % 3 == 0 {
+            return Err(std::io::ErrorKind::Interrupted.into());
+        }
+        if buf.is_empty() {
+            return Ok(0);
+        }
+        self.out.push(buf[0]);
+        Ok(1)
+    }
+    fn flush(&mut self) -> std::io::Result<()> {
+        Ok(())
+    }
+}
+/// A conforming `Read` that hands out one byte per call and reports `Interrupted` on every second call.
+struct Sip<'a> {
+    data: &'a [u8],
+    pos: usize,
+    tick: u32,
+}
+impl std::io::Read for Sip<'_> {
+    fn read(&mut self, buf: &mut [u8]) -> std::io::Result<usize> {
+        self.tick += 1;
+        if self.tick % 2 == 0 {
+            return Err(std::io::ErrorKind::Interrupted.into());
+        }
+        if buf.is_empty() || self.pos >= self.data.len() {
+            return Ok(0);
+        }
+        buf[0] = self.data[self.pos];
+        self.pos += 1;
+        Ok(1)
+    }
+}
+
 fn check_value(v: u64, o: &mut Outcome) -> Result<(), Failure> {
     for big in [true, false] {
         let exp = vbyte_bytes(v, big);
         let name = if big { "be" } else { "le" };
+        // the same through a byte sink / source that transfers one byte per call and interleaves Interrupted
+        // (both allowed by the std::io contracts): same bytes, same count, same value, same consumption
+        {
+            let mut d = Drip { out: vec![], tick: 0 };
+            let n = match (big, v % 2 == 0) {
+                (true, true) => vbyte_write_be(v, &mut d),
+                (false, true) => vbyte_write_le(v, &mut d),
+                (true, false) => vbyte_write::<BE, _>(v, &mut d),
+                (false, false) => vbyte_write::<LE, _>(v, &mut d),
+            };
+            if d.out != exp || n.as_ref().ok() != Some(&exp.len()) {
+                fail!(format!("io_write_drip/{}", name), "vbyte_write ({}) of {} into a one-byte-per-call sink wrote {} and returned {:?}; reference {}", name, v, hex(&d.out), n, hex(&exp));
+            }
+            let mut data = exp.clone();
+            data.push(0x55);
+            let mut r = Sip { data: &data, pos: 0, tick: 0 };
+            let got = match (big, v % 2 == 0) {
+                (true, true) => vbyte_read_be(&mut r),
+                (false, true) => vbyte_read_le(&mut r),
+                (true, false) => vbyte_read::<BE, _>(&mut r),
+                (false, false) => vbyte_read::<LE, _>(&mut r),
+            };
+            if got.as_ref().ok() != Some(&v) || r.pos != exp.len() {
+                fail!(format!("io_read_sip/{}", name), "reading {} ({}) from a one-byte-per-call source returned {:?} after consuming {} bytes; expected {} after {}", hex(&exp), name, got, r.pos, v, exp.len());
+            }
+        }
         let mut out: Vec<u8> = vec![];
         let n = if big { vbyte_write_be(v, &mut out) } else { vbyte_write_le(v, &mut out) };
         if out != exp || n.as_ref().ok() != Some(&exp.len()) {
